@@ -14,3 +14,7 @@ pub mod mon;
 pub mod findings;
 pub mod evidence;
 pub mod props_mapper;
+pub mod props_c06;
+pub mod loopsim;
+pub mod props_loop;
+pub mod props_c13;
